@@ -19,7 +19,9 @@ struct Behaviour {
     needs_eof: bool,
 }
 
-const BEHAVIOURS: [Behaviour; 8] = [
+const BEHAVIOURS: [Behaviour; 9] = [
+    // closes its stdin at once (the parent's input runs into EPIPE), then writes more than a pipe holds
+    Behaviour { name: "closes-stdin-then-writes", script: "c0,w@:300000:8192,x0", produces: 300000, needs_eof: true },
     Behaviour { name: "exits-at-once", script: "x0", produces: 0, needs_eof: false },
     Behaviour { name: "exits-late", script: "s40,x3", produces: 0, needs_eof: false },
     Behaviour { name: "reads-to-eof", script: "R,x0", produces: 0, needs_eof: true },
